@@ -279,6 +279,12 @@ def lvalue_root(e):
         if k == "OpCall" and e.get("op") in ("*", "->") and e.get("args"):
             e = unwrap(e["args"][0])
             continue
+        # a call that hands back a reference to its receiver / first operand (stream insertion, fluent setters)
+        if k in ("MCall", "OpCall") and ((e.get("callee") or {}).get("ret") or "").endswith("&"):
+            nxt = e.get("recv") if k == "MCall" else (e.get("args") or [None])[0]
+            if nxt is not None:
+                e = unwrap(nxt)
+                continue
         break
     return ("*",)
 
@@ -1197,7 +1203,7 @@ def propagate(body, facts, memo):
         key = "l:%s#%s" % (v["n"], v["id"])
         init = v["init"]
         # a reference cannot be re-seated: writing "to it" writes the object it names
-        fixed_ref = bool(v.get("ref")) and path(init) is not None and "$" not in path(init)
+        fixed_ref = bool(v.get("ref")) and path(init) is not None
         if key in env.assigned and not fixed_ref:
             continue
         if v.get("ref") and not fixed_ref:
@@ -1224,8 +1230,9 @@ def propagate(body, facts, memo):
 
     def harmful(cid, use):
         n, v, init, rps = cands[cid]
-        if v.get("ref") and path(init) is not None and "$" not in path(init):
-            # a reference bound to a fixed sub-object is that object, whatever is written to it in between
+        if v.get("ref") and path(init) is not None:
+            # a reference bound to a fixed sub-object (or to the payload slot of an optional, which lives inside the
+            # optional) is that object, whatever is written to it in between
             return False
         d_o = order[id(n)]
         u_o = order[id(use)]
